@@ -10,7 +10,7 @@ from __future__ import annotations
 
 from lib import batch
 from lib.core import Ctx
-from props import file_common, pipe_common
+from props import file_common, pipe_common, worker
 
 
 def run(ctx: Ctx):
@@ -31,6 +31,9 @@ def run(ctx: Ctx):
     # short contigs, one molecule each from either end (a seeding correlation without any peak on one strand)
     res2, lines2, out2 = file_common.explore(ctx, 6 if quick else 40, salt=55, n_qry=8, kinds=["shortcontigs"], model=False)
     res, lines, out = res + res2, lines + lines2, out + out2
+    # the worker's own protocol: each task's messages replayed against Worker.tla (the returned row is a most confident
+    # candidate of at most peaksCount)
+    worker.run_part(ctx, "C05")
     seeds = []
     for rr, ln in zip(res, lines):
         if ln is None:
